@@ -37,3 +37,13 @@ impl std::fmt::Display for Error {
         }
     }
 }
+
+/// Verification hooks (`--cfg hyperium_h3_verif`): re-exports of crate-private codec
+/// functions so that an external harness can call them. No behaviour change.
+#[cfg(hyperium_h3_verif)]
+pub mod verif {
+    pub use super::prefix_int::{decode as prefix_int_decode, encode as prefix_int_encode};
+    pub use super::prefix_int::Error as PrefixIntError;
+    pub use super::prefix_string::{decode as prefix_string_decode, encode as prefix_string_encode};
+    pub use super::prefix_string::Error as PrefixStringError;
+}
